@@ -214,6 +214,7 @@ type c07Obs struct {
 	Status  int    `json:"receipt_state"`
 	Paid    string `json:"sender_paid,omitempty"`
 	SumDiff string `json:"sum_delta,omitempty"`
+	Fee     string `json:"fee_receiver_got,omitempty"`
 }
 
 func c07Big(s string) *big.Int {
@@ -225,13 +226,22 @@ func c07Big(s string) *big.Int {
 }
 
 func c07ConsKey(c *c07Case) string {
-	switch c.Prog {
-	case "SD_SELF":
+	if c.Prog == "SD_SELF" {
 		return "conservation:selfdestruct-to-self"
-	case "":
-		return "conservation:" + c.Kind
 	}
-	return "conservation:" + c.Kind + ":" + c.Prog
+	// input shape: does the cost of the gas bought (in 10^-18 ONG, the unit the
+	// state transition multiplies in) need more than 63 / 64 bits?
+	pfx := "conservation:"
+	cost := new(big.Int).Mul(new(big.Int).SetUint64(c.Limit), new(big.Int).Mul(new(big.Int).SetUint64(c.Price), big.NewInt(c07GWei)))
+	if cost.BitLen() > 64 {
+		pfx += "gaslimit*price>=2^64:"
+	} else if cost.BitLen() > 63 {
+		pfx += "gaslimit*price>=2^63:"
+	}
+	if c.Prog == "" {
+		return pfx + c.Kind
+	}
+	return pfx + c.Kind + ":" + c.Prog
 }
 
 func (e *c07Env) run(r *vh.Run, c *c07Case) (obs c07Obs) {
@@ -398,6 +408,7 @@ func (e *c07Env) run(r *vh.Run, c *c07Case) (obs c07Obs) {
 	}
 	paid := new(big.Int).Sub(get(preBal, sender), get(postBal, sender))
 	obs.Paid = paid.String()
+	obs.Fee = new(big.Int).Sub(get(postBal, gov), get(preBal, gov)).String()
 	max := new(big.Int).Mul(new(big.Int).SetUint64(c.Limit), price)
 	max.Add(max, value)
 	if paid.Cmp(max) > 0 {
